@@ -4,6 +4,8 @@ import (
 	"bytes"
 	"encoding/json"
 	"fmt"
+	"go/format"
+	"go/ast"
 	"go/scanner"
 	"go/token"
 	"math/rand"
@@ -174,6 +176,9 @@ func checkC04(c *Ctx) {
 		}
 		items[i] = c04Record(c, i, ms[i], rand.New(rand.NewSource(seeds[i])), perMini)
 	})
+	// one FileRestorer for several files, every file printed only after all have been restored: each
+	// file still renders exactly its own decorations (what a restore returns may not change afterwards)
+	c04Reuse(c, src, r0)
 	// listing helper + accessor, once per node type that occurs
 	pts := &ndjson{}
 	seenType := map[string]bool{}
@@ -425,4 +430,73 @@ func c04Expected(res *TLCResult) string {
 		return " EXPECTED (schema) " + truncate(p[len(p)-1], diagLen())
 	}
 	return ""
+}
+
+// c04Reuse restores groups of marked template fragments with one FileRestorer and prints them afterwards.
+func c04Reuse(c *Ctx, src []byte, r *rand.Rand) {
+	groups := 12
+	if !c.Quick() {
+		groups = 120
+	}
+	for g := 0; g < groups; g++ {
+		ms, err := miniFiles(src)
+		if err != nil {
+			return
+		}
+		k := 2 + r.Intn(2)
+		var files []*dst.File
+		var idx []int
+		for j := 0; j < k; j++ {
+			i := r.Intn(len(ms))
+			f := ms[i]
+			ms[i] = nil
+			if f == nil {
+				continue
+			}
+			// a marker comment in front of and behind the first declaration
+			d := f.Decls[0].Decorations()
+			d.Start.Prepend(fmt.Sprintf("// S%d.%d", g, j))
+			d.End.Append("\n", fmt.Sprintf("// E%d.%d", g, j))
+			files = append(files, f)
+			idx = append(idx, i)
+		}
+		key := fmt.Sprintf("reused-FileRestorer|fragments %v", idx)
+		c.Eval(key, true)
+		// reference: every file printed by its own restorer
+		var want []string
+		for _, f := range files {
+			t, msg := printFile(dst.Clone(f).(*dst.File))
+			if msg != "" {
+				want = nil
+				break
+			}
+			want = append(want, t)
+		}
+		if want == nil {
+			c.Add("inapplicable_cases", 1)
+			continue
+		}
+		fr := decorator.NewRestorer().FileRestorer()
+		var afs []*ast.File
+		msg := guard(func() {
+			for _, f := range files {
+				af, err := fr.RestoreFile(f)
+				if err != nil {
+					panic(err)
+				}
+				afs = append(afs, af)
+			}
+		})
+		if msg != "" {
+			c.Fail(Finding{Sig: "render-panic", Input: key, What: "one FileRestorer for several files: " + msg, Replay: obj{"kind": "none"}})
+			continue
+		}
+		for j, af := range afs {
+			var buf bytes.Buffer
+			if err := format.Node(&buf, fr.Fset, af); err != nil || buf.String() != want[j] {
+				c.Fail(Finding{Sig: "render-depends-on-later-restores", Input: key, What: fmt.Sprintf("file %d of %d restored by one FileRestorer, printed after the others were restored (%v):\n%s\nits own restorer prints:\n%s", j+1, len(afs), err, truncate(buf.String(), 500), truncate(want[j], 500)), Replay: obj{"kind": "none"}})
+				break
+			}
+		}
+	}
 }
